@@ -36,6 +36,8 @@ print("|---|---|---|---|---|---|")
 for mf in sorted(glob.glob(os.path.join(V, "seeded", "*", "meta.json"))):
     m = json.load(open(mf))
     det = ", ".join(f"{k} ({'; '.join(v['violations'][:2])})" for k, v in m.get("checks", {}).items() if v["exit"] == 1)
+    if not det and m.get("not_claimed_reason"):
+        det = "not claimed as property-breaking: " + m["not_claimed_reason"][:160] + "..."
     if not det:
         und = [k for k, v in m.get("checks", {}).items() if v["exit"] in (2, 3)]
         det = (f"not decided: {', '.join(und)} exits 2 (the change is outside the contract's reach - no pass, no VIOLATION)"
